@@ -2,6 +2,7 @@ import PikaVerif.Props.C06
 import PikaVerif.Lemmas.MtxProg
 import PikaVerif.Lemmas.MtxCover
 import PikaVerif.Lemmas.MtxSolo
+import PikaVerif.Lemmas.MtxObs
 /-!
 # C06t — termination / bounded hand-off of the mutex operations (follow-up of C06)
 
@@ -320,5 +321,74 @@ example : ∃ s, runLog step (init 2) (run2.take 12) = some s ∧ s.lock = none 
     s.holdsG 0 = true ∧ s.inCS 0 = false ∧ s.queue = [1] ∧ s.pc 1 = .susp false ∧
     unlockSolo 0 1 0 false ++ [.done 0] ++ lockWake 1 = (run2.drop 12).take 13 :=
   ⟨_, rfl, rfl, rfl, rfl, rfl, rfl, rfl, rfl⟩
+
+/-! ## What a `try_lock_for` that returned false has observed -/
+
+/-- **A failed timed lock saw the mutex held and its deadline pass.**  Run the observer
+    (`Lemmas/MtxObs.lean`: it reads only events and `owner_id_`, and accepts exactly the model's
+    logs, `C06t_observer_transparent`) beside any accepted log.  Whenever `try_lock_until/for`
+    reports false: (1) `owner_id_` was valid when this call linked itself into the wait queue — the
+    call waited only because the mutex was held; (2) this call's deadline event has occurred (the
+    agent's `sleep_until` ends by the deadline only, also for a notified task); and (3) either the
+    wait reported `timeout` (entry still queued at `cv.woke`), or it reported `signaled` and
+    `owner_id_` was valid again at the re-test under the internal spinlock (the mutex was taken by
+    another task in between).  It never reports false without having waited. -/
+theorem C06t_timed_false_observed (n : Nat) (log : List Ev) (p : TSt) (t : Nat) (s' : St)
+    (h : runLog tstep (tinit n) log = some p) (hop : p.s.curOp t = .timed)
+    (hret : step p.s (.ret t .fail) = some s') :
+    p.o.held t = true ∧ p.o.dl t = true ∧ (p.o.still t = true ∨ p.o.heldRel t = true) := by
+  have hlog := trun_step log _ p h
+  obtain ⟨_, hi2⟩ := inv2_of_accepted hlog
+  have hT := runLog_tinv log _ p (tinv_init n) h t
+  have hopk := hi2.opOk t
+  simp only [step] at hret
+  split at hret
+  · split at hret
+    · rename_i o b hpc
+      split at hret
+      · rename_i hb; subst hb
+        rw [hpc, hop] at hopk
+        simp only [pcOpOk, decide_eq_true_eq] at hopk
+        subst hopk
+        rw [hpc] at hT
+        exact hT
+      · simp at hret
+    · simp at hret
+  · simp at hret
+
+/-- the observer is transparent: every accepted log of the model has an observer run over the same
+    states, and conversely -/
+theorem C06t_observer_transparent (n : Nat) (log : List Ev) :
+    (∀ s, runLog step (init n) log = some s → ∃ p, runLog tstep (tinit n) log = some p ∧ p.s = s) ∧
+    (∀ p, runLog tstep (tinit n) log = some p → runLog step (init n) log = some p.s) :=
+  ⟨fun s h => trun_exists log (tinit n) s h, fun p h => trun_step log (tinit n) p h⟩
+
+/-- the requested reading "it observed a timeout **while the mutex was held**" is false for the
+    code as it is: `try_lock_until` returns false on `timeout` without re-testing `owner_id_`.
+    Witness: task 0 holds, task 1 waits in `lock()`, task 2 in `try_lock_for` behind it; task 0
+    unlocks (notifying task 1, which has not run yet), task 2's deadline passes: its `cv.woke`
+    reports timeout and it returns false while `owner_id_` is invalid — the mutex is free, the
+    hand-off to task 1 is in flight. -/
+def runTimedFree : List Ev :=
+  [.inv 0 .lock, .slAcq 0, .own 0 1 false, .slRel 0, .ret 0 .ok,
+   .inv 1 .lock, .slAcq 1, .cvEnq 1 1 false, .slRel 1, .suspend 1,
+   .inv 2 .timed, .slAcq 2, .cvEnq 2 2 true, .slRel 2, .sleep 2,
+   .inv 0 .unlock, .slAcq 0, .disown 0, .popResume 0 1 1 false, .slRel 0, .ret 0 .ok,
+   .timeout 2, .slAcq 2, .cvWoke 2 true true, .slRel 2]
+
+example : ∃ p s', runLog tstep (tinit 3) runTimedFree = some p ∧ step p.s (.ret 2 .fail) = some s' ∧
+    p.s.curOp 2 = .timed ∧ p.s.owner = none ∧ p.o.heldRel 2 = false ∧
+    p.o.held 2 = true ∧ p.o.dl 2 = true ∧ p.o.still 2 = true :=
+  ⟨_, _, rfl, rfl, rfl, rfl, rfl, rfl, rfl, rfl⟩
+
+/-- the other branch: notified, but the mutex was taken again before the re-test -/
+example : ∃ p s', runLog tstep (tinit 2)
+      [.inv 0 .lock, .slAcq 0, .own 0 1 false, .slRel 0, .ret 0 .ok,
+       .inv 1 .timed, .slAcq 1, .cvEnq 1 1 true, .slRel 1, .sleep 1,
+       .inv 0 .unlock, .slAcq 0, .disown 0, .popResume 0 0 1 true, .slRel 0, .ret 0 .ok,
+       .inv 0 .tryl, .slAcq 0, .own 0 2 false, .slRel 0, .ret 0 .ok,
+       .timeout 1, .slAcq 1, .cvWoke 1 false true, .slRel 1] = some p ∧
+    step p.s (.ret 1 .fail) = some s' ∧ p.o.still 1 = false ∧ p.o.heldRel 1 = true ∧ p.s.owner = some 0 :=
+  ⟨_, _, rfl, rfl, rfl, rfl, rfl⟩
 
 end PikaVerif.C06t
